@@ -28,16 +28,21 @@ type layout struct {
 
 	// link names relative to root
 	lrel, labs, lfileJSON, lfileTxt, chain0, lnew, lnewdir, ldang, lin, loop string
-	chainLen                                                                 int
-	links                                                                    map[string]string // absolute link path -> target text (initial layout)
-	linkOrder                                                                []string
-	seed                                                                     int64
-	top                                                                      string // L<idx>/<variant>
-	vid                                                                      string // "A" or "B": which variant of the outside this instance holds
-	noLinks                                                                  bool   // build the root without any symbolic link
-	pristineOut, pristineIn                                                  map[string]string
-	builds                                                                   int
-	dirty                                                                    bool // the last run changed something (inside or outside the root)
+	// composed links (two deep): a dangling link whose target runs through a directory link that leaves the root,
+	// one under a link chain, links whose target has ".." after a directory link, links inside a linked directory
+	lcompNew, lcompNewDir, lcompChainNew, ldd, lddNew, linner, linnerDir string
+	lcompDD, lcompDDDir                                                  string // a link to another dangling link that leaves the root
+	tmpdir                                                               string // $TMPDIR of the program: outside the root, inside the instance
+	chainLen                                                             int
+	links                                                                map[string]string // absolute link path -> target text (initial layout)
+	linkOrder                                                            []string
+	seed                                                                 int64
+	top                                                                  string // L<idx>/<variant>
+	vid                                                                  string // "A" or "B": which variant of the outside this instance holds
+	noLinks                                                              bool   // build the root without any symbolic link
+	pristineOut, pristineIn                                              map[string]string
+	builds                                                               int
+	dirty                                                                bool // the last run changed something (inside or outside the root)
 }
 
 // variant content ---------------------------------------------------------
@@ -60,7 +65,7 @@ func (l *layout) variant(id string) variant {
 		v.content = append(v.content, "CNRY"+tok(l.seed, l.idx, id, "c", i))
 	}
 
-	for i := 0; i < 4; i++ {
+	for i := 0; i < 7; i++ {
 		v.names = append(v.names, "un"+tok(l.seed, l.idx, id, "n", i)[:10])
 	}
 
@@ -77,7 +82,7 @@ func newLayout(arena string, idx int, rng *rand.Rand, seed int64, vid string) *l
 	top := filepath.Join(arena, fmt.Sprintf("L%d", idx), vid)
 	base := filepath.Join(top, "a", "b")
 	l := &layout{idx: idx, base: base, root: filepath.Join(base, "root"), outside: filepath.Join(base, "outside"),
-		evil: filepath.Join(base, "root-evil"), home: filepath.Join(top, "home"), seed: seed, top: top, vid: vid}
+		evil: filepath.Join(base, "root-evil"), home: filepath.Join(top, "home"), seed: seed, top: top, vid: vid, tmpdir: filepath.Join(base, "tmpdir")}
 
 	used := map[string]bool{}
 	name := func(inSub bool) string {
@@ -98,6 +103,9 @@ func newLayout(arena string, idx int, rng *rand.Rand, seed int64, vid string) *l
 	l.lrel, l.labs, l.lfileJSON, l.lfileTxt = name(pick()), name(pick()), name(pick()), name(pick())
 	l.chain0, l.lnew, l.lnewdir, l.ldang, l.lin, l.loop = name(false), name(pick()), name(pick()), name(pick()), name(false), name(false)
 	l.chainLen = 2 + rng.Intn(3)
+	l.lcompNew, l.lcompNewDir, l.lcompChainNew, l.ldd, l.lddNew = name(pick()), name(pick()), name(false), name(pick()), name(pick())
+	l.lcompDD, l.lcompDDDir = name(pick()), name(pick())
+	l.linner, l.linnerDir = strings.TrimPrefix(name(true), "sub/"), strings.TrimPrefix(name(true), "sub/")
 
 	switch idx % 3 {
 	case 0:
@@ -158,6 +166,28 @@ func newLayout(arena string, idx int, rng *rand.Rand, seed int64, vid string) *l
 	add(l.lin, "sub")
 	add(l.loop, l.loop+"_b")
 	add(l.loop+"_b", l.loop)
+
+	// composed layouts: the target text goes THROUGH another link (purely textual relative paths inside the root)
+	through := func(linkRel, rootRelTarget string) string {
+		r, _ := filepath.Rel(filepath.Dir(filepath.Join(l.root, linkRel)), filepath.Join(l.root, rootRelTarget))
+
+		return r
+	}
+	throughRaw := func(linkRel, viaLink, rest string) string { // keeps "<via>/../x" unreduced
+		r, _ := filepath.Rel(filepath.Dir(filepath.Join(l.root, linkRel)), filepath.Join(l.root, viaLink))
+
+		return r + "/" + rest
+	}
+
+	add(l.lcompNew, through(l.lcompNew, l.lrel+"/created.txt"))              // dangling; really outside/created.txt
+	add(l.lcompNewDir, through(l.lcompNewDir, l.lrel+"/createddir"))         // dangling; really outside/createddir
+	add(l.lcompChainNew, through(l.lcompChainNew, l.chain0+"/created2.txt")) // dangling under a chain
+	add(l.ldd, throughRaw(l.ldd, l.lrel, "../top.txt"))                      // existing in variant A: <base>/top.txt
+	add(l.lddNew, throughRaw(l.lddNew, l.lrel, "../created3.txt"))           // dangling: <base>/created3.txt
+	add(l.lcompDD, through(l.lcompDD, l.lnew))                               // dangling -> dangling -> outside/new.json
+	add(l.lcompDDDir, through(l.lcompDDDir, l.lnewdir))                      // dangling -> dangling -> outside/newdir
+	add("sub/"+l.linner, "../../outside/secret.txt")                         // reached as <lin>/<linner>
+	add("sub/"+l.linnerDir, l.outside)                                       // reached as <lin>/<linnerDir>/T
 
 	if strings.HasSuffix(l.setting, "rootlnk") {
 		l.links[filepath.Join(l.base, "rootlnk")] = "root"
@@ -234,6 +264,22 @@ func (l *layout) build() {
 	must(os.MkdirAll(l.outside, 0o755))
 	must(os.MkdirAll(l.evil, 0o755))
 
+	// $TMPDIR and $HOME of the program are outside the root; both hold a canary. In $HOME only what the ego
+	// process itself keeps there survives a rebuild.
+	must(os.RemoveAll(l.tmpdir))
+	must(os.MkdirAll(l.tmpdir, 0o755))
+	writeFile(filepath.Join(l.tmpdir, n[4]+".tmp"), c[5]+"\n")
+
+	if ents, err := os.ReadDir(l.home); err == nil {
+		for _, e := range ents {
+			if !homeOwnedByEgo(e.Name()) {
+				must(os.RemoveAll(filepath.Join(l.home, e.Name())))
+			}
+		}
+	}
+
+	writeFile(filepath.Join(l.home, n[5]+".cfg"), c[4]+"\n")
+
 	if v.id == "A" {
 		writeFile(filepath.Join(l.outside, "secret.json"), `{"canary":"`+c[0]+`"}`)
 		writeFile(filepath.Join(l.outside, "secret.txt"), c[1]+"\n")
@@ -273,8 +319,13 @@ func (l *layout) snapshot() (outside, inside map[string]string) {
 			return nil
 		}
 
-		if p == l.home {
-			return filepath.SkipDir
+		// $HOME is watched too, except for what the ego process itself maintains there
+		if filepath.Dir(p) == l.home && homeOwnedByEgo(filepath.Base(p)) {
+			if d.IsDir() {
+				return filepath.SkipDir
+			}
+
+			return nil
 		}
 
 		info, err := os.Lstat(p)
@@ -302,6 +353,17 @@ func (l *layout) snapshot() (outside, inside map[string]string) {
 	})
 
 	return outside, inside
+}
+
+// homeOwnedByEgo: entries of $HOME written by the ego process itself (profile, system database, library, the
+// harness's own program and trace files); everything else in $HOME is judged like any other outside location.
+func homeOwnedByEgo(name string) bool {
+	switch name {
+	case ".ego", "ego-system.db", "ego-system.db-shm", "ego-system.db-wal", "lib":
+		return true
+	}
+
+	return (strings.HasPrefix(name, "prog") && strings.HasSuffix(name, ".ego")) || (strings.HasPrefix(name, "trace") && strings.HasSuffix(name, ".log"))
 }
 
 // ensure brings the instance back to its pristine state if the previous case changed anything
